@@ -21,6 +21,7 @@ CONSTANTS
   PriorityToAllEngines = FALSE
   PruneKeepsEqual = FALSE
   PartialCommit = TRUE
+  UpdateTouchesTruth = FALSE
 INVARIANT OneRecordPerTasking
 INVARIANT NoRecordWithoutTasking
 INVARIANT PointingReflectsTasking
